@@ -893,6 +893,9 @@ func (c *CharClassMatcher) parse() {
 	// escaped[i] records that chars[i] was written as an escape sequence: an
 	// escaped hyphen is a member, never the range operator.
 	var escaped []bool
+	// classMark stands in chars for a Unicode class escape: the characters on both
+	// sides of it are not neighbours ([a\pL-z] holds a, \pL, - and z, not the range a-z).
+	const classMark rune = -1
 	var buf bytes.Buffer
 outer:
 	for {
@@ -928,6 +931,8 @@ outer:
 				} else {
 					c.UnicodeClasses = append(c.UnicodeClasses, string(rn))
 				}
+				chars = append(chars, classMark)
+				escaped = append(escaped, true)
 				continue
 
 			case 'x':
@@ -959,6 +964,11 @@ outer:
 	// extract ranges and chars
 	inRange, wasRange := false, false
 	for i, r := range chars {
+		if r == classMark {
+			// a hyphen right behind a class is a member
+			wasRange = true
+			continue
+		}
 		if inRange {
 			c.Ranges = append(c.Ranges, r)
 			inRange = false
@@ -966,7 +976,7 @@ outer:
 			continue
 		}
 
-		if r == '-' && !escaped[i] && !wasRange && len(c.Chars) > 0 && i < len(chars)-1 {
+		if r == '-' && !escaped[i] && !wasRange && len(c.Chars) > 0 && i < len(chars)-1 && chars[i+1] != classMark {
 			inRange = true
 			wasRange = false
 			// start of range is the last Char added
